@@ -100,11 +100,11 @@ let str_mask ws m = str_ids (mask_ids (nat_of_int ws.tb) m)
 let str_optnat = function None -> "-" | Some i -> string_of_int (int_of_nat i)
 
 let str_event ws (e : event) =
-  Printf.sprintf "e=%s add=%s rem=%s aids=%s rids=%s orel=%s nrel=%s otg=%s types=%d locked=%d"
+  Printf.sprintf "e=%s add=%s rem=%s aids=%s rids=%s orel=%s nrel=%s otg=%s types=%d locked=%d to=%d"
     (slot_of ws e.ev_ent) (str_mask ws e.ev_added) (str_mask ws e.ev_removed)
     (str_ids_sorted e.ev_added_ids) (str_ids_sorted e.ev_removed_ids)
     (str_optnat e.ev_oldrel) (str_optnat e.ev_newrel) (slot_of ws e.ev_oldtarget)
-    (int_of_n e.ev_types) (if e.ev_locked then 1 else 0)
+    (int_of_n e.ev_types) (if e.ev_locked then 1 else 0) (int_of_nat e.ev_to)
 
 let str_view ws m vals target =
   Printf.sprintf "v %s | %s | %s" (str_mask ws m)
@@ -295,7 +295,12 @@ let handle_line line =
       | "LISTEN", ["off"] -> run_op idx ws (OSetListener None) ~creates:false
       | "LISTEN", [subs; comps] ->
         let c = if comps = "-" then None else Some (mask comps) in
-        run_op idx ws (OSetListener (Some { lc_subs = n_of_int (int_of_string subs); lc_comps = c })) ~creates:false
+        run_op idx ws (OSetListener (Some (LCallback { lc_subs = n_of_int (int_of_string subs); lc_comps = c }))) ~creates:false
+      | "LISTEND", _ :: rest ->
+        let rec subs = function
+          | s :: c :: r -> { lc_subs = n_of_int (int_of_string s); lc_comps = (if c = "-" then None else Some (mask c)) } :: subs r
+          | _ -> [] in
+        run_op idx ws (OSetListener (Some (LDispatch (subs rest)))) ~creates:false
       | "LOCKED", [] -> run_op idx ws OIsLocked ~creates:false
       | "STATS", [] -> run_op idx ws OStats ~creates:false
       | _ -> failwith ("bad op line: " ^ line)
